@@ -151,9 +151,10 @@ where
             return Err("Overflow inverting operand.");
         };
     }
-    // Newton iterations
+    // Newton iterations: the distance to the root at least halves in every step, so one step per bit of
+    // the type reaches it from any starting value (frac_nbits steps are too few when int_nbits is large)
     let mut l = (operand / D::from_num(2)) + D::from_num(1);
-    for _i in 0..D::frac_nbits() {
+    for _i in 0..(D::frac_nbits() + D::int_nbits()) {
         #[cfg(substrate_fixed_verif)]
         crate::verif_hooks::tick();
         l = (l + operand / l) / D::from_num(2);
